@@ -104,7 +104,7 @@ CLAIMED = {
              "every Evaluate must equal the model's; host loads and parses are counted (at most one per module); imported bindings are "
              "checked to be live.",
         technique="Lean 4 invariant proofs over a model of InnerModuleEvaluation (once-only, idempotent re-evaluation, dependency order of the trace for all graphs, fuel sufficiency) + model-predicted vs real evaluation order and outcomes on generated module graphs",
-        note="top-level await, dynamic import, synthetic/JSON modules are outside the model (hand-derived scenarios only); 'an error rejects exactly its dependents' is carried by the model's statuses and compared, not stated as a theorem.",
+        note="top-level await and throwing async modules are covered by a second, executable Lean model (C17/Async.lean: pending counts, async parents, cycle roots, GatherAvailableAncestors, AsyncModuleExecutionRejected over the host's job queue) whose exact trace and Evaluate outcomes are compared with the engine on generated graphs, by the dependency-order and error-propagation oracles on the same graphs, and by hand-derived scenarios; its theorems (AsyncTheorems.lean) cover the host-facing contract only. Dynamic import and synthetic/JSON modules are outside both models; 'an error rejects exactly its dependents' is carried by the model's statuses and compared, not stated as a theorem.",
     ),
     "C10": dict(
         level="proof",
